@@ -66,6 +66,15 @@ def post(ctx):
     if not wantm or wantm - gotm:
         raise TieBroken("allmsgs-coverage", "generated message structs not exercised by the allmsgs harnesses: %s" % sorted(wantm - gotm))
     ctx.cov["stats"].setdefault("coverage", {}).update({"message_structs_run": len(gotm & wantm), "message_structs_listed": len(wantm)})
+    # every generated element slice and message struct was READ (CopyTo from it into a mutable destination) under a read-only root
+    st = dict(ctx.cov["stats"].get("allmsgs", {}))
+    for k, v in ctx.cov["stats"].get("allmsgs-pprofile", {}).items():
+        st[k] = st.get(k, 0) + v
+    copied = {k[len("ro_copy_from_"):] for k, v in st.items() if k.startswith("ro_copy_from_") and v > 0}
+    need = {w.split(".")[1] for w in want} | {w.split(".")[1] for w in wantm}
+    if need - copied:
+        raise TieBroken("readonly-reader-coverage", "types never copied FROM under a read-only root by the allmsgs sweep: %s" % sorted(need - copied))
+    ctx.cov["stats"]["coverage"]["types_copied_from_under_read_only_root"] = len(need & copied)
     ctx.cov["stats"].setdefault("coverage", {}).update({"generated_slices_run": len(got & want), "generated_slices_listed": len(want),
                                                         "primitive_slices_run": len(gotp & wantp), "primitive_slices_listed": len(wantp)})
 
@@ -95,10 +104,10 @@ SPEC = Spec(
                 test="TestVerifC07AllPrims", driver="drv_c07", n={"quick": 7 * 200, "thorough": 7 * 4000}),
         Harness(name="allmsgs", module="pdata", pkg="pdata/plog",
                 files={"zz_verif_c07_allslices_test.go": "c07/allslices_test.go", "zz_verif_c07_allmsgs_test.go": "c07/allmsgs_test.go"},
-                test="TestVerifC07AllMsgs", driver=None, n={"quick": 30 * 40, "thorough": 30 * 700}),
+                test="TestVerifC07AllMsgs", driver=None, n={"quick": 30 * 24, "thorough": 30 * 400}),
         Harness(name="allmsgs-pprofile", module="pdata/pprofile", pkg="pdata/pprofile",
                 files={"zz_verif_c07_allslices_test.go": "c07/allslices_pprofile_test.go", "zz_verif_c07_allmsgs_test.go": "c07/allmsgs_pprofile_test.go"},
-                test="TestVerifC07AllMsgsProfile", driver=None, n={"quick": 13 * 40, "thorough": 13 * 700}),
+                test="TestVerifC07AllMsgsProfile", driver=None, n={"quick": 13 * 24, "thorough": 13 * 400}),
         Harness(name="map", module="pdata", pkg="pdata/pcommon", files={"zz_verif_c07_map_test.go": "c07/map_test.go"},
                 test="TestVerifC07Map", driver="drv_c07", n={"quick": 12000, "thorough": 150000}),
         Harness(name="nest", module="pdata", pkg="pdata/pcommon", files={"zz_verif_c07_nest_test.go": "c07/nest_test.go"},
